@@ -36,44 +36,44 @@ type updRec struct {
 }
 
 type rec struct {
-	Op     string // add1 add2 chain look query mine txset parents update
-	Set    []ATx
-	Basis  types.ChainIndex
-	To     types.ChainIndex
-	Steps  []bstepRec
-	Upd    []updRec
-	LR     bool
-	LR1    []ATx
-	LR2    []ATx
-	Tip    *NodeInfo
-	V2     bool
-	ID     types.TransactionID
-	V2Ok   bool
-	Arb    ATx
-	Tx     ATx
-	Res    Res
-	ObsV1  []types.TransactionID
-	ObsV2  []ATx
+	Op    string // add1 add2 chain look query mine txset parents update
+	Set   []ATx
+	Basis types.ChainIndex
+	To    types.ChainIndex
+	Steps []bstepRec
+	Upd   []updRec
+	LR    bool
+	LR1   []ATx
+	LR2   []ATx
+	Tip   *NodeInfo
+	V2    bool
+	ID    types.TransactionID
+	V2Ok  bool
+	Arb   ATx
+	Tx    ATx
+	Res   Res
+	ObsV1 []types.TransactionID
+	ObsV2 []ATx
 }
 
 // A Runner drives one real manager over a world and records what it sees.
 type Runner struct {
-	W     *World
-	Sim   *mgrsim.Sim
-	CM    *chain.Manager
-	Tip   *chaingen.Node
-	Start *chaingen.Node
-	Known   map[*chaingen.Node]bool // nodes whose blocks the manager stored
-	Applied map[*chaingen.Node]bool // nodes that were on the best chain at some time (full state, supplement)
-	pendUpd []updRec
-	lastRev *chaingen.Node
+	W        *World
+	Sim      *mgrsim.Sim
+	CM       *chain.Manager
+	Tip      *chaingen.Node
+	Start    *chaingen.Node
+	Known    map[*chaingen.Node]bool // nodes whose blocks the manager stored
+	Applied  map[*chaingen.Node]bool // nodes that were on the best chain at some time (full state, supplement)
+	pendUpd  []updRec
+	lastRev  *chaingen.Node
 	elemNode map[*chaingen.Node]*chaingen.Node // whose element accumulator the stored state of a block carries
-	Meta  map[types.TransactionID]Meta
-	NoCoq string // reason why this history has no Coq case ("" = it has one)
-	recs  []rec
-	Fail  func(kind, detail string)
-	Stats map[string]int
-	MW    uint64
+	Meta     map[types.TransactionID]Meta
+	NoCoq    string // reason why this history has no Coq case ("" = it has one)
+	recs     []rec
+	Fail     func(kind, detail string)
+	Stats    map[string]int
+	MW       uint64
 }
 
 // NewRunner starts a manager at genesis.
